@@ -108,6 +108,9 @@ def handle (kind : String) (args : List String) (impl : String) : String :=
   | "c08.limit", [] =>
     -- the processor behaves as its latest configuration says: three connections under a limit of three are served
     if impl == "cfg=3 served=3" then "ok" else s!"SPEC processor-does-not-follow-the-latest-configuration impl={impl}"
+  | "c08.ep", ["down"] =>
+    -- an endpoint announced in state DOWN is not selected for load balancing
+    if impl == "usable=1" then "ok" else s!"SPEC endpoint-announced-DOWN-is-usable impl={impl}"
   | "c08.ep", [_] =>
     -- the processor's host set is the latest endpoint set: address and type; an endpoint without an address names no host
     if impl == "store=1m,2b procs=1m,2b" || impl == "store=1m,2m procs=1m,2m" then
